@@ -16,6 +16,9 @@ import struct
 import subprocess
 import sys
 
+sys.path.insert(0, os.path.dirname(os.path.abspath(__file__)))
+import dgram_common as dc  # noqa: E402
+
 PROP = "C05"
 RULE = ("addresses x ports x recovery mechanism: IPv4/IPv6 destinations = all-zero, all-ones, every single bit, byte palindromes, "
         "every zero-group mask of the 8 IPv6 groups (256 masks) with random non-zero fill, IPv4-mapped/-compatible forms, random; "
@@ -24,7 +27,11 @@ RULE = ("addresses x ports x recovery mechanism: IPv4/IPv6 destinations = all-ze
         "mutated text, random bytes); CONNECT messages as clients of every platform send them (family number 2 for IPv4, "
         "10/30/28/24/23/26 = AF_INET6 of Linux/macOS/FreeBSD/OpenBSD+NetBSD/Windows/Solaris for IPv6) through the real connect_dst and "
         "SockWrapper.try_connect onto a recording socket; a case is non-trivial when it reaches a decoder with a well-formed or near-miss input; "
-        "distinct by content hash")
+        "distinct by content hash; PLUS datagram sequences (dgram_common.run_c05_dgram, oracle on the real code only): 1-3 sources "
+        "each sending to 2-5 destinations (same host / other port incl. byte-swapped twins 53/13568, 0x1234/0x3412, ports 0, 1, 255, 256, "
+        "65535; other host / same port; both families), interleaved, with idle gaps around 30 s, through the real onaccept_udp + "
+        "tproxy.recv_udp on kernel-layout control messages and a real Mux: the 'ip,port,' header of EVERY UDP_DATA message must name the "
+        "destination of THAT datagram; the same frames through the real server.main: every sendto goes there")
 TRUSTED_BASE = [
     "modelled, not verified: kernel layouts struct sockaddr_in / sockaddr_in6 and the IP_ORIGDSTADDR / IPV6_ORIGDSTADDR control messages "
     "(Model/Addr.v sockaddr_in, sockaddr_in6) - compared with a real Linux kernel in a namespace in the thorough tier",
@@ -570,6 +577,10 @@ def batch(ctx, what, lines, impls, descs, nontrivial=None, sample_every=0, oracl
 # --------------------------------------------------------------------------
 
 def correspondence(ctx):
+    # ---- datagram sequences: one source, several destinations (every datagram carries ITS destination).
+    # Run first: World() below replaces server.Mux / server.UdpProxy / client.Proxy by stubs for the rest of the process,
+    # and this part drives the unpatched server.main loop.
+    dc.run_c05_dgram(ctx)
     world = World()
     rng = ctx.rng
     quick = ctx.quick()
@@ -1262,8 +1273,10 @@ def kernel_validation(ctx, world):
 
 def replay(ctx, rp):
     """re-run a stored failing input against the real code; returns True if it still fails"""
-    world = World()
     r = rp.get("replay", {})
+    if r.get("oracle") == "udp-destinations":
+        return dc.replay_c05_dgram(rp)
+    world = World()
     if "connect_payload" in r:
         payload = r["connect_payload"].encode("ascii")
         text, port = r["dialled"]
